@@ -6,6 +6,7 @@ import (
 	"encoding/hex"
 	"encoding/json"
 	"fmt"
+	"os"
 	"sort"
 	"strings"
 	"sync"
@@ -36,6 +37,8 @@ type ViewSig struct {
 	Conv    map[string]map[uint64]string `json:"conv,omitempty"` // converter -> stream -> digest found in cached output ("" = none, "!" = malformed)
 	Err     string                       `json:"err,omitempty"`
 }
+
+var debugQ = os.Getenv("VERIF_DEBUG_Q") != ""
 
 func (v *ViewSig) Hash() string {
 	h := sha256.New()
@@ -216,6 +219,9 @@ func viewSig(v *manager.View, withTags bool, battery []string, convs []string) *
 				continue
 			}
 			ids := []uint64{}
+			if debugQ {
+				fmt.Fprintf(os.Stderr, "QUERY %s\n", qs)
+			}
 			_, _, _, err = v.SearchStreams(ctx, q, func(sc manager.StreamContext) error {
 				ids = append(ids, sc.Stream().ID())
 				return nil
